@@ -828,6 +828,91 @@ fn cmd_directed(args: &[String]) {
             samples.push("stale reader across two completed resize generations".to_string());
         }
     }
+    // template 6 (the element counter lags behind the structure): thread 0 links a new key and stops
+    // just before its counter update; thread 1 removes that key (counter: one less than the number
+    // of entries - zero with one stable key); thread 2 iterates and asks len / is_empty; thread 0
+    // finishes
+    if want("lagcount") {
+        for (hasher, cap, stable) in [(types::H_IDENTITY, 0u64, 1u32), (types::H_ZERO, 64, 1), (types::H_MIX, 16, 2), (types::H_ZERO, 0, 3)] {
+            let prog = Program {
+                hasher,
+                cap,
+                prefill: (0..stable).collect(),
+                threads: vec![vec![COp::Insert(stable, 50)], vec![COp::Remove(stable)], vec![COp::Iter, COp::Get(0), COp::ContainsKey(0)]],
+                universe: stable + 2,
+                batch: 1,
+                pin: false,
+                linger: 0,
+            };
+            let script = vec![(0usize, Cond::EntersFn("add_count".into())), (1usize, Cond::Done), (2usize, Cond::Done), (0, Cond::Done)];
+            let opts = RunOpts { policy: Policy::Directed(script, 0), step_limit: 60_000, freeze: None };
+            println!("AT directed template=lagging_counter stable={} || {}", stable, program_text(&prog));
+            let r = with_hasher!(prog.hasher, S, { run_program::<S>(&prog, opts) });
+            runs += 1;
+            let mut fails = r.failures.clone();
+            match r.verdict {
+                Verdict::Deadlock => fails.push(format!("C11: deadlock: {}", r.statuses)),
+                Verdict::StepLimit => fails.push("C11: step limit exceeded".into()),
+                _ => {}
+            }
+            fails.extend(check_iterators(&prog, &r));
+            fails.extend(check_history(&prog, &r));
+            fails.extend(check_quiescent(&prog, &r));
+            for f in fails.iter().take(1) {
+                found += 1;
+                let tag = if f.starts_with('C') { f[..3].to_string() } else { "C07".to_string() };
+                println!("FOUND {} directed template=lagging_counter stable={} || {} || {}", tag, stable, f.replace('\n', " "), program_text(&prog));
+            }
+        }
+    }
+    // template 7 (a reader walking a tree bin's list while an entry is removed from under it): the
+    // writer stops right after taking the tree write lock, the reader - forced onto the next-list -
+    // walks k steps, the writer completes the removal, the reader goes on
+    if want("listwalk") {
+        // the writer removes a first key (the reader, arriving while that write lock is held, walks
+        // the list and stops on the node of r), then removes r and stops just before releasing the
+        // write lock; the reader resumes, still on the list
+        for (a, r) in [(9u32, 5u32), (10, 8), (6, 2), (3, 10)] {
+            for k in 1..=max_off.min(48) {
+                let prog = Program {
+                    hasher: types::H_ZERO,
+                    cap: 64,
+                    prefill: (0..14).collect(),
+                    threads: vec![vec![COp::Get(0), COp::ContainsKey(1)], vec![COp::Remove(a), COp::Remove(r)]],
+                    universe: 16,
+                    batch: 1,
+                    pin: false,
+                    linger: 0,
+                };
+                let script = vec![
+                    (1usize, Cond::EntersFn("lock_root".into())),
+                    (1, Cond::Steps(1)),
+                    (0usize, Cond::Steps(k)),
+                    (1, Cond::CompletedOps(1)),
+                    (1, Cond::EntersFn("unlock_root".into())),
+                    (0, Cond::Done),
+                    (1, Cond::Done),
+                ];
+                let opts = RunOpts { policy: Policy::Directed(script, 0), step_limit: 60_000, freeze: None };
+                println!("AT directed template=list_walk remove={} k={} || {}", r, k, program_text(&prog));
+                let rr = with_hasher!(prog.hasher, S, { run_program::<S>(&prog, opts) });
+                runs += 1;
+                let mut fails = rr.failures.clone();
+                match rr.verdict {
+                    Verdict::Deadlock => fails.push(format!("C11: deadlock: {}", rr.statuses)),
+                    Verdict::StepLimit => fails.push("C11: step limit exceeded".into()),
+                    _ => {}
+                }
+                fails.extend(check_history(&prog, &rr));
+                fails.extend(check_quiescent(&prog, &rr));
+                for f in fails.iter().take(1) {
+                    found += 1;
+                    let tag = if f.starts_with('C') { f[..3].to_string() } else { "C01".to_string() };
+                    println!("FOUND {} directed template=list_walk remove={} k={} || {} || {}", tag, r, k, f.replace('\n', " "), program_text(&prog));
+                }
+            }
+        }
+    }
     println!("JSON {}", json!({"runs": runs, "found": found, "samples": samples}));
 }
 
